@@ -87,6 +87,7 @@ P["background_after_scenario"] = "Feature: X\n  Scenario: s\n    Given x\n  Back
 P["comments_then_error"] = "# c1\n# c2\nFeature: X\n  # c3\n  Scenario: s\n    Given x\n    # c4\n    oops\n    # c5\n"
 P["bad_tag_inside_lookahead"] = "Feature: L\n  Scenario: s\n    Given x\n  @good\n  # c\n  @not ok\n  Scenario: t\n    Given y\n"
 P["many_errors_inside_lookahead"] = "Feature: L\n  Scenario: s\n    Given x\n" + "".join("    junk %d\n" % i for i in range(10)) + "  @good\n  @bad tag\n  Scenario: t\n"
+P["only_language_header"] = "# language: fr\n"
 P["md_eof_in_fence"] = "# Feature: M\n## Scenario: s\n* Given x\n````\nfour ticks open\n"
 
 if __name__ == "__main__":
